@@ -157,6 +157,12 @@ theorem wt_noDead (vtys : List CSem.Ty) (ret : CSem.Ty) (st : Stmt) : ∀ (lb lc
     split at h
     · cases h; simp [noDead, declTys]
     · cases h
+  | ainit a t n xb j v =>
+    intro lb lc nd nd' h
+    simp only [Stmt.wt] at h
+    split at h
+    · cases h; simp [noDead, declTys]
+    · cases h
   | pload d dt k t w c0 x =>
     intro lb lc nd nd' h
     simp only [Stmt.wt] at h
@@ -201,6 +207,9 @@ def frag (P : List CSem2.Func) (cnts : List Nat) (W : List (CSem.Ty × Nat × Na
     arrsOK cnts (.aload d dt a t n xb x) && (decide (W.length ≤ d) && decide (W.length ≤ a))
   | .astore a t n xb x v =>
     ((decide (1 ≤ n) && decide (cnts[a]? = some n) && decide (xb = xbase cnts a)) &&
+      ((P.isEmpty || v.callsOK P) && v.arrsOK cnts)) && decide (W.length ≤ a)
+  | .ainit a t n xb j v =>
+    ((decide (j < n) && decide (cnts[a]? = some n) && decide (xb = xbase cnts a)) &&
       ((P.isEmpty || v.callsOK P) && v.arrsOK cnts)) && decide (W.length ≤ a)
   | .pload d _ k t w c0 _ => decide (W.length ≤ d) && decide (W[k]? = some (t, w, c0))
   | .callp dst rt fn pargs args =>
